@@ -1,6 +1,7 @@
 package main
 
 import (
+	"path/filepath"
 	"sync"
 	"fmt"
 	"os"
@@ -192,6 +193,18 @@ func definesVisibleGlobalAgain(p *Program) bool {
 	return false
 }
 
+// c10Interpret: the reference run; the one external program the workload calls (basename) is modelled.
+func c10Interpret(p *Program) Result {
+	it := &Interp{Width: 32, MaxSteps: interpBudget, prog: p}
+	it.AppHook = func(stages [][]string) (string, int) {
+		if len(stages) == 1 && stages[0][0] == "basename" && len(stages[0]) == 2 {
+			return filepath.Base(stages[0][1]) + "\n", 0
+		}
+		return "", 127
+	}
+	return it.Run()
+}
+
 func renameProgram(p *Program, from, to string) *Program {
 	return (&Rewriter{Name: func(kind, n string) string {
 		if n == from {
@@ -224,6 +237,7 @@ func c10Programs(c *Check) []*Program {
 		VarDecl{Names: []string{"n", "s"}, Short: true, Values: []Expr{call("fone", il(3), sl("k"))}},
 		pr(vr("n"), vr("s"), vr("gvar"), Len{vr("gslice")}, Index{"gslice", il(1)}),
 		pr(call("ftwo", vr("gslice")), Len{vr("gslice")}, Len{vr("gtext")}, Substr{"gtext", il(1), il(4)}, Index{"gtext", il(0)}),
+
 		For{Kind: ForThree, Init: def("ti", il(0)), Cond: cmp("<", vr("ti"), il(2)), Post: IncDec{"ti", true}, Body: []Stmt{
 			If{Branches: []IfBranch{{cmp("==", vr("ti"), il(0)), []Stmt{def("blk", bin("+", vr("ti"), il(10))), pr(vr("blk"))}}}, HasElse: true, Else: []Stmt{pr(cmp("!=", vr("gtext"), sl("x")), logic("&&", bl(true), cmp(">", vr("gvar"), il(1))))}},
 		}},
@@ -239,9 +253,13 @@ func c10Programs(c *Check) []*Program {
 				OpAssign{"out", "+", vr("item")}, IncDec{"total", true}}},
 			ret(vr("out"))),
 		fn("wrap", []Param{{"txt", TString}}, []Type{TString}, def("res", bin("+", bin("+", sl("["), vr("txt")), sl("]"))), ret(vr("res"))),
+		fn("deepc", []Param{{"val", TInt}}, []Type{TInt}, ret(bin("+", vr("val"), il(3)))),
+		fn("deepb", []Param{{"val", TInt}}, []Type{TInt}, ret(bin("*", call("deepc", vr("val")), il(2)))),
+		fn("deepa", []Param{{"val", TInt}}, []Type{TInt}, ret(bin("-", call("deepb", vr("val")), il(1)))),
 		fn("flag", []Param{{"val", TInt}}, []Type{TBool}, def("big", cmp(">", vr("val"), il(1))), ret(logic("||", vr("big"), cmp("==", vr("val"), il(-1))))),
 		def("joined", call("wrap", call("join", vr("names"), sl(", ")))),
 		pr(vr("joined"), vr("total"), call("flag", vr("total")), call("flag", il(0))),
+		pr(call("deepa", il(4))),
 		def("w", il(0)),
 		For{Kind: ForCond, Cond: cmp("<", vr("w"), il(3)), Body: []Stmt{IncDec{"w", true}, ifs(cmp("==", vr("w"), il(2)), Continue{}), pr(vr("w"))}},
 		VarDecl{Names: []string{"grown"}, Type: TSliceBool}, SliceSet{"grown", il(2), bl(true)}, pr(Len{vr("grown")}, Index{"grown", il(0)}, Index{"grown", il(2)}),
@@ -290,7 +308,15 @@ func c10Programs(c *Check) []*Program {
 			fn("Bump", nil, []Type{TInt}, IncDec{"depth", true}, ret(vr("depth"))),
 		}},
 	}}
-	progs := []*Program{p1, p2, p3, p4}
+	// p5: an external program called by identifier (program names and identifiers are different name spaces); the
+	// cmd model runs no programs, so this one counts for the Bash target only
+	p5 := SingleFile([]Stmt{
+		def("label", sl("dir/leaf.txt")),
+		fn("leaf", []Param{{"route", TString}, {"extra", TString}}, []Type{TString}, VarDecl{Names: []string{"outp", "errp", "codep"}, Short: true, Values: []Expr{AppCall{[]AppStage{{Name: "basename", Args: []Expr{vr("route")}}}}}}, ret(bin("+", bin("+", vr("outp"), vr("extra")), Itoa{vr("codep")}))),
+		VarDecl{Names: []string{"bo", "be", "bc"}, Short: true, Values: []Expr{AppCall{[]AppStage{{Name: "basename", Args: []Expr{vr("label")}}}}}}, pr(vr("bo"), vr("bc"), call("leaf", sl("a/b/c"), sl("!"))),
+		ExprStmt{AppCall{[]AppStage{{Name: "basename", Args: []Expr{sl("x/y")}}}}}, pr(call("leaf", vr("label"), vr("bo"))),
+	})
+	progs := []*Program{p1, p2, p3, p4, p5}
 	n := c.Pick(2, 16)
 	for i := 0; i < n; i++ {
 		cfg := genConfigs[[]string{"c02", "c03"}[i%2]]
@@ -347,7 +373,7 @@ func checkC10(c *Check) {
 	bases := []base{}
 	harvest := map[string]string{} // name -> origin class
 	for _, p := range progs {
-		ref := Interpret(p, 32, interpBudget)
+		ref := c10Interpret(p)
 		if ref.Undefined != "" {
 			continue
 		}
@@ -474,6 +500,9 @@ func checkC10(c *Check) {
 				if !c.Thorough() && (cl == "bash-own-name" || cl == "mangled-local") && (ni+int(c.Seed))%4 != 0 {
 					continue // quick tier: a quarter of the two largest classes (both are recorded findings)
 				}
+				if !c.Thorough() && harvest[to] == "near-miss" && (ni+int(c.Seed))%2 != 0 {
+					continue // quick tier: every second near-miss name
+				}
 				if harvest[to] == "near-miss" {
 					cl = "near-miss"
 				}
@@ -540,6 +569,35 @@ func checkC10(c *Check) {
 					if to != from {
 						classCount["own-name"]++
 						jobs = append(jobs, job{bi, role, from, to, "own-name"})
+					}
+				}
+			}
+			// the names of the external programs the program calls (@name(...)) as names of its variables and
+			// functions: program names are a name space of their own
+			if strings.Contains(b.bash, "basename") {
+				for _, from := range cands {
+					for _, to := range []string{"basename"} {
+						if !b.own[to] {
+							classCount["called-program-name"]++
+							jobs = append(jobs, job{bi, role, from, to, "called-program-name"})
+						}
+					}
+				}
+			}
+			// names built from the program's own function names (a prefix or suffix joined with an underscore): a
+			// front end or back end that cuts names at underscores must not confuse them
+			if role == "func" || role == "lib-func" || role == "global" {
+				for _, from := range cands {
+					for _, other := range append(append([]string{}, b.roles["func"]...), b.roles["lib-func"]...) {
+						if other == from {
+							continue
+						}
+						for _, to := range []string{"zz_" + other, other + "_zz", other + "_", "_" + other} {
+							if !b.own[to] && !reservedWords[to] && nameClass(to, "derived-own") == "derived-own" {
+								classCount["derived-from-own-function"]++
+								jobs = append(jobs, job{bi, role, from, to, "derived-from-own-function"})
+							}
+						}
 					}
 				}
 			}
@@ -618,7 +676,7 @@ func checkC10(c *Check) {
 						r2 = Result{Undefined: "ill-typed after renaming"}
 					}
 				}()
-				r2 = Interpret(rp, 32, interpBudget)
+				r2 = c10Interpret(rp)
 			}()
 			if r2.Undefined != "" || r2.Stdout != b.ref.Stdout || r2.Exit != b.ref.Exit {
 				c.Count("own_name_renamings_not_meaning_preserving_skipped", 1)
@@ -672,9 +730,9 @@ func checkC10(c *Check) {
 			c.Eval(fmt.Sprintf("bash/%d/%s/%s", j.bi, j.role, j.to), false)
 			c.Count("renamings_rejected_by_transpile", 1)
 		}
-		// Batch under the model
+		// Batch under the model (programs that call external programs are judged on the Bash target only)
 		tb := TranspileFile(mainPath, Batch, 30*time.Second)
-		if tb.OK() {
+		if tb.OK() && !strings.Contains(b.batch, "basename") {
 			okAny := false
 			var last CmdResult
 			for v := 0; v < 2; v++ {
